@@ -18,7 +18,8 @@ regenerated from srs.py / fdepsd.py on every run (harness/translate/c09_parent.p
   every output array, for any number of frequencies / columns / time steps;
 * `assembly_eq_serial`: outputs after copy-out and post-processing equal the serial routine's for
   every complete schedule, although the serial routine starts from `np.empty` arrays;
-* `peak_applied_once`, `getresp_histories_eq_serial`, `srs_routine_eq_serial` on the srs worker system.
+* `peak_applied_once`, `getresp_histories_eq_serial`, `srs_routine_eq_serial` on the srs worker system;
+* `generated_peak_travels_in_task_tuple`: why an unpicklable `peak` breaks the parallel path (finding).
 -/
 namespace PyYetiVerif.C09
 open PyYetiVerif.ParSched
@@ -151,6 +152,18 @@ theorem generated_serial_is_worker_loop :
       s.params.length = s.parArgs.length ∧ s.parArgs = s.serArgs ∧
       (∀ fp ∈ ParFootprint.workers, (fp.name = s.workerHist ∨ fp.name = s.workerNoHist) →
         fp.serialSame = true) := by
+  decide
+
+/-- Cause of the finding `parallel-path-raises:srs:peak-callable-not-picklable`: at both srs sites the
+peak function (`methfunc`) and the coefficient function travel to the workers INSIDE the task tuple,
+which `multiprocessing` pickles for every task — a `peak` function that cannot be pickled (a lambda)
+therefore makes the parallel path raise where the serial loop simply calls it.  The theorems below
+take the peak function as a mathematical function `P`; that it survives the hand-over is the stated
+assumption "a callable `peak` handed to the parallel path is picklable". -/
+theorem generated_peak_travels_in_task_tuple :
+    ∀ s ∈ ParFootprintParent.sites, s.routine = "srs.srs" →
+      "methfunc" ∈ s.parArgs ∧ "methfunc" ∈ s.params ∧ s.initializer ∈ ["_mk_par_globals", "_mk_par_globals_ic"] ∧
+      ∀ d ∈ s.shared, d.var ≠ "methfunc" := by
   decide
 
 /-! ### the tasks' cells partition the outputs -/
